@@ -76,22 +76,22 @@ CLAIMED = {
         note=TRUST + "; composition over the number of elements by the induction rule",
     ),
     "C09": dict(
-        category="other",
-        text="Each TimedStore operation (refresh, stop, stop_all_for_address, stop_all, the firing timer _expired) is proved over the event-loop model with a symbolic clock: refresh arms exactly one timer for now + ttl (none for 0xFFFFFF) and cancels the previous one, explicit removal cancels, a firing timer removes and reports exactly its entry once and immediately, nothing else changes, and the invariant 'every live timer belongs to a present entry holding that handle' is preserved (so a stale timer cannot remove a successor). The number of other entries in the store is bounded in shape, hence level other.",
+        category="proof",
+        text="Each TimedStore operation (refresh, stop, stop_all_for_address, stop_all, the firing timer _expired) is proved over the event-loop model with a symbolic clock: refresh arms exactly one timer for now + ttl (none for 0xFFFFFF) and cancels the previous one, explicit removal cancels, a firing timer removes and reports exactly its entry once and immediately, nothing else changes, and the invariant 'every live timer belongs to a present entry holding that handle' is preserved (so a stale timer cannot remove a successor). The store holds arbitrarily many entries (lazily materialised contents: untouched entries are untouched by construction; the loops of stop_all_for_address / stop_all are verified for one arbitrary element by loop contract).",
         design_ref="DESIGN.md 4/C09",
-        technique="per-operation postconditions + representation invariant by symbolic execution of the real AST over a shared event-loop model + SMT; bounded store shape",
+        technique="per-operation postconditions + representation invariant + loop contracts, symbolic execution of the real AST over a shared event-loop model + SMT; unbounded store (lazily materialised dict)",
         note=TRUST + "; event-loop model contracts/looplib.py trusted (timers fire once, at their deadline, never if cancelled); defect D9 repaired by fix commit f08e646",
     ),
     "C05": dict(
         category="other",
-        text="Every operation of the discovery part (offer, stop-offer, TTL expiry, reboot of a source, connection loss, watch / unwatch / watch-all) is proved, from an arbitrary consistent state, to tell each concerned listener 'offered' exactly when an entry appears and 'stopped' exactly when it disappears, immediately or by the time the loop is idle, and nothing otherwise -- the inductive step of alternation and truthfulness; the reboot of a message is applied before its offers. Stored contents and the number of listeners are bounded in shape; one schedule is the open known finding D10; hence level other.",
+        text="Every operation of the discovery part (offer, stop-offer, TTL expiry, reboot of a source, connection loss, watch / unwatch / watch-all) is proved, from an arbitrary consistent state, to tell each concerned listener 'offered' exactly when an entry appears and 'stopped' exactly when it disappears, immediately or by the time the loop is idle, and nothing otherwise -- the inductive step of alternation and truthfulness; the reboot of a message is applied before its offers. The store of known offers is unbounded (lazily materialised); the number of registered listeners is bounded in shape; one schedule is the open known finding D10; hence level other.",
         design_ref="DESIGN.md 4/C05, 5/D3 D9 D10",
-        technique="monitor invariant preserved by each operation: symbolic execution of the real AST over the shared event-loop model + SMT; bounded state shape",
+        technique="monitor invariant preserved by each operation + loop contracts over an unbounded store: symbolic execution of the real AST over the shared event-loop model + SMT",
         note=TRUST + LOOP + "; defects D3/D9 repaired by fix commits f08e646, c4e5f5a; D10 recorded",
     ),
     "C06": dict(
         category="other",
-        text="Subscribe / StopSubscribe handling, TTL expiry, subscriber reboot and service stop are proved, from an arbitrary consistent state and for either listener decision, to keep the server-side records truthful and alternating: an accepted Subscribe is recorded with deadline now + TTL and positively acknowledged, a rejected one is neither recorded nor later reported, and a reboot revealed by a message is applied before that message's Subscribe entries. State shape (other records, options per entry) is bounded, hence level other.",
+        text="Subscribe / StopSubscribe handling, TTL expiry, subscriber reboot and service stop are proved, from an arbitrary consistent state and for either listener decision, to keep the server-side records truthful and alternating: an accepted Subscribe is recorded with deadline now + TTL and positively acknowledged, a rejected one is neither recorded nor later reported, and a reboot revealed by a message is applied before that message's Subscribe entries. The subscription store is unbounded (lazily materialised); one instance per announcer and 0..2 endpoint options per entry are shape bounds, hence level other.",
         design_ref="DESIGN.md 4/C06, 5/D4",
         technique="monitor invariant preserved by each operation: symbolic execution of the real AST over the shared event-loop model + SMT; bounded state shape",
         note=TRUST + LOOP + "; defect D4 repaired by fix commit c4e5f5a",
